@@ -71,6 +71,23 @@ def runner_c14(tier, seed, workdir):
                             "object key order is not observable (serde_json maps are sorted)"]}
 
 
+def runner_c18(tier, seed, workdir):
+    import c18
+    n = 100 if tier == 'quick' else 1500
+    res = c18.run(seed, n, workdir)
+    violations = []
+    for d in res['disagreements'][:20]:
+        violations.append({'class': 'delivery', 'detail': f"case {d['case']['id']} run {d['run']}: message {short(d['message'])} should reach channels {d['model']} (registered and matching), handlers invoked: {d['impl']}",
+                           'case': {'kind': 'chan', 'case': d['case'], 'message': d['message'], 'expected': d['model'], 'observed': d['impl']}})
+    st = res['stats']
+    cov = {'evaluations': st['messages'], 'distinct_nontrivial': st['deliveries'],
+           'rule': "1..4 channel ids registered / re-registered / closed / unsubscribed at arbitrary points between runs of a fixed workflow (10 messages per run: workflow, steps, irq and msg acts, created and completed, keys, tags, uses); patterns per field from the glob grammar (literal, *, ?, [a-c], [!a], {a,b}) built around the actual field values; one evaluation = one emitted message checked against every channel; non-trivial = handler invocations",
+           'traces_validated_against_impl': st['traces_validated_against_impl'], 'input_distribution': st, 'samples': res['cases'][:1]}
+    return {'cov': cov, 'violations': violations,
+            'assumptions': ["globset implements the pattern language as the reference matcher of model/Chan.v reads it (compared on every generated pattern / message pair)",
+                            "the order in which different channels are served is not observable"]}
+
+
 def classify_c10(d):
     op = d['case']['ops'][d['op']]
     return f"{d['backend']}:{op['op']}"
@@ -112,7 +129,7 @@ def engine_runner(prop):
     return run
 
 
-RUNNERS = {'C10': runner_c10, 'C09': runner_c09, 'C14': runner_c14}
+RUNNERS = {'C10': runner_c10, 'C09': runner_c09, 'C14': runner_c14, 'C18': runner_c18}
 for _p in ('C01', 'C02', 'C03', 'C05', 'C08', 'C19'):
     RUNNERS[_p] = engine_runner(_p)
 
@@ -198,7 +215,7 @@ def replay(prop, path):
             print(f"op#{d['op']} model={short(d['model'])} impl={short(d['impl'])}")
         print("REPRODUCED" if r['disagreements'] else "NOT-REPRODUCED")
         return 1 if r['disagreements'] else 0
-    if case.get('kind') == 'script':
+    if case.get('kind') in ('script', 'chan'):
         print(json.dumps(case, indent=1)[:2000])
         print("re-run with ./check C14 quick (the case is part of the seed's corpus); expected vs observed above")
         return 1
